@@ -56,7 +56,7 @@ def model_instances(tier):
 
 # seeded defects of the model and the invariant each must break (non-vacuity of the invariants)
 BUGS = [("nozero", "NonZero", 2), ("nonatomic", "NoClash", 2), ("nonatomic", "WindowDistinct", 2), ("short", "NoClash", 2),
-        ("overwrite", "PassThrough", 1), ("none", "NoClashEver", 2)]
+        ("overwrite", "PassThrough", 1), ("rewind", "NoClash", 2), ("none", "NoClashEver", 2)]
 
 
 def run_model(tier, ex):
@@ -189,6 +189,14 @@ def scenarios_for(tier, rng, starts, scripts):
             for qos in (1, 2):
                 scr.append(dict(id="script-%d-%d-q%d" % (si, ci, qos), kind="script", hi=s[0], lo=s[1],
                                 script=[dict(sup=x, qos=qos if x else 0) for x in sc]))
+    # requests with library-chosen identifiers stay outstanding, then a Publish with an identifier the caller preset
+    # (below them, as the retransmission of an older message carries), then further requests
+    rst = [(0, 100), (7, 0xFFFA), rnd()] + ([] if q else starts + [rnd() for _ in range(5)])
+    for si, s in enumerate(rst):
+        for hold in (2, 5):
+            for back in (0, 1, 3):
+                for qos in (1, 2):
+                    scr.append(dict(id="resup-%d-h%d-b%d-q%d" % (si, hold, back, qos), kind="resup", hi=s[0], lo=s[1], hold=hold, n=back, ackEvery=qos, per=4))
     churn = [dict(id="churn", kind="churn", hi=rng.randrange(M16), lo=rng.randrange(1, M16 - 1))]
     return alloc, api, scr, churn
 
